@@ -19,6 +19,17 @@ func vShortDelta(last int32, idx uint32, cur, chunk commit.Chunk) bool {
 	return cur == chunk && idx >= uint32(last) && idx-uint32(last) < 128
 }
 
+// vFrameFill: two presence bitmaps of equal length differ at most in bit o (stated per 64-bit word).
+func vFrameFill(now, old []uint64, o uint32) bool {
+	m := uint64(1) << (o & 63)
+	return len(now) == len(old) && vForall(0, len(old), func(w int) bool {
+		if uint32(w) == o>>6 {
+			return now[w]&^m == old[w]&^m
+		}
+		return now[w] == old[w]
+	})
+}
+
 // One operation through a numeric column (C01, C09, C11): for every column storage state, every buffer state, every
 // offset of the block, every value and every (deterministic) user merge function, applying the run that holds exactly
 // the operation the real writer appended stores the value bit for bit at the decoded position, sets / clears the
@@ -30,6 +41,9 @@ func vApplyNumeric[T comparable](col Column, nc *chunks[T], chs chunks[T], chunk
 	vAssume(idx < 1<<31 && commit.ChunkAt(idx) == chunk && last >= 0 && 0 <= s && s <= len(buf) && sel <= 4 && merge != nil && vShortDelta(last, idx, cur, chunk))
 	*nc = chs
 	fill, data := chs[chunk].fill, chs[chunk].data
+	vAssume(vDistinctBacking(fill, data)) // Grow allocates them separately
+	// representation invariant of chunk storage: a cell without presence bit holds the zero value
+	vAssume(vForall(0, chunkSize, func(j int) bool { return vBit(fill, uint32(j)) || vSame(data[j], zero) }))
 	o := idx - chunk.Min()
 	oldFill := append([]uint64(nil), fill...)
 	oldData := append([]T(nil), data...)
@@ -61,12 +75,14 @@ func vApplyNumeric[T comparable](col Column, nc *chunks[T], chs chunks[T], chunk
 		vAssert("merge-rewritten-as-put", r2.Next() && r2.Type == commit.Put && r2.Index() == idx && vSame(get(r2), data[o]) && commit.VAtEnd(r2))
 	case 2:
 		vAssert("delete", !vBit(fill, o))
-		vAssert("delete-keeps-data", vSame(data[o], oldData[o]))
+		vAssert("delete-zeroes", vSame(data[o], zero))
 	default:
 		vAssert("other-op", vBit(fill, o) == vBit(oldFill, o) && vSame(data[o], oldData[o]))
 	}
-	vAssert("frame-fill", vForall(0, chunkSize, func(j int) bool { return uint32(j) == o || vBit(fill, uint32(j)) == vBit(oldFill, uint32(j)) }))
+	vAssert("frame-fill", vFrameFill(fill, oldFill, o))
 	vAssert("frame-data", vForall(0, chunkSize, func(j int) bool { return uint32(j) == o || vSame(data[j], oldData[j]) }))
+	// with the two frames, the storage invariant is kept iff it holds at the one cell that changed
+	vAssert("absent-zero-kept", vBit(fill, o) || vSame(data[o], zero))
 }
 
 //@ lemma props=C01,C09,C11 mode=paths
@@ -173,8 +189,7 @@ func vLemmaApplyBool(data []uint64, chunk commit.Chunk, buf []byte, last int32, 
 	default:
 		vAssert("other-op", vBit(data, idx) == vBit(old, idx))
 	}
-	vAssert("frame", vForall(0, len(data)*64, func(j int) bool { return uint32(j) == idx || vBit(data, uint32(j)) == vBit(old, uint32(j)) }))
-	vAssert("length", len(col.data) == len(old))
+	vAssert("frame", vFrameFill(col.data, old, idx))
 }
 
 // One operation through a bitmap index (C03): a put makes bit `offset` equal to what the rule answers for the reader
@@ -214,7 +229,7 @@ func vLemmaApplyIndex(fill []uint64, chunk commit.Chunk, buf []byte, last int32,
 	default:
 		vAssert("other-op", vBit(now, idx) == vBit(old, idx) && vCallCount(rule) == calls)
 	}
-	vAssert("frame", len(now) == len(old) && vForall(0, len(old)*64, func(j int) bool { return uint32(j) == idx || vBit(now, uint32(j)) == vBit(old, uint32(j)) }))
+	vAssert("frame", vFrameFill(now, old, idx))
 }
 
 // One operation through a trigger (C19): the callback is called exactly once for a put and for a delete, with the
@@ -266,6 +281,7 @@ func vLemmaApplyString(chs chunks[string], chunk commit.Chunk, buf []byte, last 
 	col := makeStrings(WithMerge(merge)).(*columnString)
 	col.chunks = chs
 	fill, data := chs[chunk].fill, chs[chunk].data
+	vAssume(vForall(0, chunkSize, func(j int) bool { return vBit(fill, uint32(j)) || len(data[j]) == 0 }))
 	o := idx - chunk.Min()
 	oldFill := append([]uint64(nil), fill...)
 	oldData := append([]string(nil), data...)
@@ -286,9 +302,10 @@ func vLemmaApplyString(chs chunks[string], chunk commit.Chunk, buf []byte, last 
 	// what the merge function is expected to be asked: (stored value, the delta as the reader exposes it)
 	rc := commit.VReaderAt(b, s, oldLen, last)
 	rc.Next()
-	var expected string
+	var expected, expectedAbsent string
 	if sel == 1 {
 		expected = merge(oldData[o], rc.String())
+		expectedAbsent = merge("", rc.String())
 	}
 	r := commit.VReaderAt(b, s, oldLen, last)
 	col.Apply(chunk, r)
@@ -298,12 +315,14 @@ func vLemmaApplyString(chs chunks[string], chunk commit.Chunk, buf []byte, last 
 	case 1:
 		vAssert("merge-sets-presence", vBit(fill, o))
 		vAssert("merge-present", !vBit(oldFill, o) || vSame(data[o], expected))
+		vAssert("merge-absent", vBit(oldFill, o) || len(oldData[o]) != 0 || vSame(data[o], expectedAbsent) || vSame(data[o], expected))
 	case 2:
-		vAssert("delete", !vBit(fill, o))
+		vAssert("delete", !vBit(fill, o) && len(data[o]) == 0)
 	default:
 		vAssert("other-op", vBit(fill, o) == vBit(oldFill, o) && vSame(data[o], oldData[o]))
 	}
-	vAssert("frame-fill", vForall(0, chunkSize, func(j int) bool { return uint32(j) == o || vBit(fill, uint32(j)) == vBit(oldFill, uint32(j)) }))
+	vAssert("absent-zero-kept", vBit(fill, o) || len(data[o]) == 0)
+	vAssert("frame-fill", vFrameFill(fill, oldFill, o))
 	vAssert("frame-data", vForall(0, chunkSize, func(j int) bool { return uint32(j) == o || vSame(data[j], oldData[j]) }))
 }
 
